@@ -16,9 +16,9 @@
        "is.name;Cmpt Prep$" (FLEX and TORCH) -> [is_category_prep] / [is_prep_name]
        (re.search("Cmpt Prep$", name): `$` also matches before one trailing newline).
 
-   Times are exact rationals (Q), counts are Z.  Nothing here is idealised: an empty interval
-   (dur = 0), unsorted input, a missing "dur" (KeyError) and an unknown job hash (KeyError) behave
-   as in the code; the property theorems (PrepQueue_proofs.v, props/C13.v) name the hypotheses
+   Times are exact rationals (Q), counts are Z.  Nothing here is idealised: an empty or negative
+   interval (dur <= 0: ignored by create_counter's guard, after the pid's queue entry was created),
+   unsorted input, a missing "dur" (KeyError) and an unknown job hash (KeyError) behave as in the code; the property theorems (PrepQueue_proofs.v, props/C13.v) name the hypotheses
    under which the counter is right. *)
 From Coq Require Import ZArith QArith List Bool String Ascii.
 Import ListNotations.
@@ -138,9 +138,18 @@ Definition qof (p : Z) (qs : queues) : list bp := match q_get p qs with Some q =
 (* make_events(ready, pid) *)
 Definition cnts (p : Z) (l : list bp) : list out := map (fun x => OCnt p (fst x) (snd x)) l.
 
+(* `if qid not in self.queues: self.queues[qid] = []` *)
+Definition q_touch (p : Z) (qs : queues) : queues :=
+  match q_get p qs with Some _ => qs | None => q_set p [] qs end.
+
+(* create_counter: a new pid gets its (empty) queue first; an interval with end <= start is never in
+   flight and changes nothing else (guard added by the fix for the zero-duration defect) *)
 Definition create_counter (qs : queues) (p : Z) (s e : Q) : queues * list out :=
-  let '(ready, nq) := update_queues s e (qof p qs) in
-  (q_set p nq qs, cnts p ready).
+  let qs0 := q_touch p qs in
+  if Qle_b e s then (qs0, [])
+  else
+    let '(ready, nq) := update_queues s e (qof p qs0) in
+    (q_set p nq qs0, cnts p ready).
 
 (* drain(): popitem() takes the most recently inserted pid first *)
 Definition drain (qs : queues) : list out :=
@@ -203,14 +212,17 @@ Definition count_at (ivs : list (Q * Q)) (t : Q) : Z := Z.of_nat (List.length (f
 Definition upto (t : Q) (q : list bp) : list bp := filter (fun p => Qle_b (fst p) t) q.
 Definition den (base : Z) (q : list bp) (t : Q) : Z := lastc base (upto t q).
 
-(* one queue fed with a list of intervals: (everything emitted by the callbacks, final queue) *)
+(* one queue fed with a list of intervals: (everything emitted by the callbacks, final queue);
+   intervals with end <= start are skipped by create_counter's guard *)
 Fixpoint stream_q (q : list bp) (ivs : list (Q * Q)) : list bp * list bp :=
   match ivs with
   | [] => ([], q)
   | (s, e) :: r =>
-      let '(rd, q1) := update_queues s e q in
-      let '(em, q2) := stream_q q1 r in
-      (rd ++ em, q2)
+      if Qle_b e s then stream_q q r
+      else
+        let '(rd, q1) := update_queues s e q in
+        let '(em, q2) := stream_q q1 r in
+        (rd ++ em, q2)
   end.
 
 (* ------------------------------------------------------------------ encoders for the tie *)
